@@ -440,80 +440,98 @@ Proof.
   destruct o; apply to_number_val.
 Qed.
 
-Lemma where_eqb_spec a b :
-  match w_number a with WInt _ => true | WFloat _ => negb (Qeqb b 0) end = true ->
-  where_eqb (w_number a) (w_number b) = Qeqb a b.
+(* a value that is not an int64 never equals an int64 *)
+Lemma float_ne_int a b :
+  q_integral a && in_i64 (Qnum a / QDen a) = false ->
+  q_integral b && in_i64 (Qnum b / QDen b) = true ->
+  Qeqb a (inject_Z (Qnum b / QDen b)) = false.
 Proof.
-  intros Hg.
+  intros Ea Eb. apply andb_true_iff in Eb. destruct Eb as [Eb1 Eb2].
+  set (t := Qnum b / QDen b) in *.
+  qsimp. rewrite Z.mul_1_r. apply Z.eqb_neq. intros H.
+  assert (Hi : q_integral a = true).
+  { unfold q_integral. apply Z.eqb_eq. rewrite H. apply Z.mod_mul. pose proof (QDen_pos a). lia. }
+  assert (Hta : Qnum a / QDen a = t).
+  { rewrite H. apply Z.div_mul. pose proof (QDen_pos a). lia. }
+  rewrite Hi, Hta, Eb2 in Ea. discriminate.
+Qed.
+
+Lemma where_eqb_spec a b : where_eqb (w_number a) (w_number b) = Qeqb a b.
+Proof.
   transitivity (Qeqb (wval_q (w_number a)) (wval_q (w_number b))).
   2:{ change (qcmp Eq (wval_q (w_number a)) (wval_q (w_number b)) = qcmp Eq a b).
       rewrite to_number_val. apply to_number_val_l. }
-  unfold w_number in *.
+  unfold w_number.
   destruct (q_integral a && in_i64 (Qnum a / QDen a)) eqn:Ea; destruct (q_integral b && in_i64 (Qnum b / QDen b)) eqn:Eb; simpl.
   - qsimp. rewrite !Z.mul_1_r. reflexivity.
   - reflexivity.
-  - (* a not an int64, b an int64: the code compares "0" with the literal's text *)
-    apply andb_true_iff in Eb. destruct Eb as [Eb1 Eb2].
-    apply negb_true_iff in Hg.
-    unfold q_integral in Eb1. apply Z.eqb_eq in Eb1. pose proof (QDen_pos b) as Hdb.
-    assert (Hnb : Qnum b = QDen b * (Qnum b / QDen b)) by (apply Z_div_exact_full_2; lia).
-    set (t := Qnum b / QDen b) in *.
-    assert (Ht0 : t <> 0).
-    { intros Ht. rewrite Ht in Hnb. unfold Qeqb in Hg. simpl in Hg. apply Z.eqb_neq in Hg. lia. }
-    transitivity false; [apply Z.eqb_neq; exact Ht0|].
-    symmetry. qsimp. rewrite Z.mul_1_r. apply Z.eqb_neq. intros H.
-    assert (Hi : q_integral a = true).
-    { unfold q_integral. apply Z.eqb_eq. rewrite H. apply Z.mod_mul. pose proof (QDen_pos a). lia. }
-    assert (Hta : Qnum a / QDen a = t).
-    { rewrite H. apply Z.div_mul. pose proof (QDen_pos a). lia. }
-    rewrite Hi, Hta, Eb2 in Ea. discriminate.
+  - symmetry. apply float_ne_int; assumption.
   - reflexivity.
 Qed.
 
-Lemma where_num o v w :
+Lemma where_eqb_prefix_spec a b :
+  match w_number a with WInt _ => true | WFloat _ => negb (Qeqb b 0) end = true ->
+  where_eqb_prefix (w_number a) (w_number b) = Qeqb a b.
+Proof.
+  intros Hg. rewrite <- where_eqb_spec. unfold w_number in *.
+  destruct (q_integral a && in_i64 (Qnum a / QDen a)) eqn:Ea; destruct (q_integral b && in_i64 (Qnum b / QDen b)) eqn:Eb; simpl; try reflexivity.
+  (* the pre-fix code compared "0" with the literal's text *)
+  apply andb_true_iff in Eb. destruct Eb as [Eb1 Eb2]. apply negb_true_iff in Hg.
+  unfold q_integral in Eb1. apply Z.eqb_eq in Eb1. pose proof (QDen_pos b) as Hdb.
+  assert (Hnb : Qnum b = QDen b * (Qnum b / QDen b)) by (apply Z_div_exact_full_2; lia).
+  set (t := Qnum b / QDen b) in *.
+  apply Z.eqb_neq. intros Ht. rewrite Ht in Hnb. unfold Qeqb in Hg. simpl in Hg. apply Z.eqb_neq in Hg. lia.
+Qed.
+
+Lemma where_num_gen (eqb : wval -> wval -> bool) o v w :
+  (match o with Eq | Ne => eqb (w_number v) (w_number w) = Qeqb v w | _ => True end) ->
   match o with
-  | Eq | Ne => match w_number v with WInt _ => true | WFloat _ => negb (Qeqb w 0) end
-  | _ => true
-  end = true ->
-  match o with
-  | Eq => where_eqb (w_number v) (w_number w) | Ne => negb (where_eqb (w_number v) (w_number w))
+  | Eq => eqb (w_number v) (w_number w) | Ne => negb (eqb (w_number v) (w_number w))
   | Lt => Qltb (wval_q (w_number v)) (wval_q (w_number w)) | Le => Qleb (wval_q (w_number v)) (wval_q (w_number w))
   | Gt => Qltb (wval_q (w_number w)) (wval_q (w_number v)) | Ge => Qleb (wval_q (w_number w)) (wval_q (w_number v))
   end = qcmp o v w.
 Proof.
   intros Hg. destruct o.
-  - apply where_eqb_spec. exact Hg.
-  - simpl. f_equal. apply where_eqb_spec. exact Hg.
+  - exact Hg.
+  - simpl. f_equal. exact Hg.
   - change (qcmp Lt (wval_q (w_number v)) (wval_q (w_number w)) = qcmp Lt v w). rewrite to_number_val. apply to_number_val_l.
   - change (qcmp Le (wval_q (w_number v)) (wval_q (w_number w)) = qcmp Le v w). rewrite to_number_val. apply to_number_val_l.
   - change (qcmp Gt (wval_q (w_number v)) (wval_q (w_number w)) = qcmp Gt v w). rewrite to_number_val. apply to_number_val_l.
   - change (qcmp Ge (wval_q (w_number v)) (wval_q (w_number w)) = qcmp Ge v w). rewrite to_number_val. apply to_number_val_l.
 Qed.
 
-(* in the exact-rational model the where stage compares numeric fields by value, except
-   = / != between a field value that is not an int64 and the literal 0 *)
-Theorem where_refines_spec_guarded ci o st n v :
-  stored_num st = Some v -> where_guard o st n = true ->
-  where_cmp o st n = Some (spec_cmp ci o st (LNum n)).
+(* in the exact-rational model the where stage compares numeric fields by value *)
+Theorem where_refines_spec ci o st n v :
+  stored_num st = Some v -> where_cmp o st n = Some (spec_cmp ci o st (LNum n)).
 Proof.
-  intros Hv Hg. unfold where_guard in Hg.
-  destruct st; simpl in Hv; try discriminate; unfold where_cmp, spec_cmp; cbn [stored_num] in *;
-    f_equal; apply where_num; destruct o; try reflexivity; exact Hg.
+  intros Hv.
+  destruct st; simpl in Hv; try discriminate; unfold where_cmp, where_cmp_gen, spec_cmp; cbn [stored_num] in *;
+    f_equal; apply where_num_gen; destruct o; try exact I; apply where_eqb_spec.
 Qed.
 
-(* CONFIRMED on the real code: `| where x=0` keeps every row whose x is not an integer *)
-Theorem where_refuted_zero :
-  where_cmp Eq (SFloat (5 # 2)) (NLInt 0) = Some true /\ spec_cmp true Eq (SFloat (5 # 2)) (LNum (NLInt 0)) = false.
+(* PRE-FIX: by value except = / != between a field value that is not an int64 and the literal 0 *)
+Theorem where_prefix_refines_spec_guarded ci o st n v :
+  stored_num st = Some v -> where_prefix_guard o st n = true ->
+  where_cmp_prefix o st n = Some (spec_cmp ci o st (LNum n)).
+Proof.
+  intros Hv Hg. unfold where_prefix_guard in Hg.
+  destruct st; simpl in Hv; try discriminate; unfold where_cmp_prefix, where_cmp_gen, spec_cmp; cbn [stored_num] in *;
+    f_equal; apply where_num_gen; destruct o; try exact I; apply where_eqb_prefix_spec; exact Hg.
+Qed.
+
+(* PRE-FIX, confirmed on the code before the repair: `| where x=0` kept every row whose x is not an integer *)
+Theorem where_prefix_zero_refuted :
+  where_cmp_prefix Eq (SFloat (5 # 2)) (NLInt 0) = Some true /\ spec_cmp true Eq (SFloat (5 # 2)) (LNum (NLInt 0)) = false.
 Proof. split; vm_compute; reflexivity. Qed.
 
 (* a comparison in the search clause and the same comparison in a later where stage agree on
-   numeric fields — under the comparison guard *)
+   numeric fields — under the comparison guard of the search clause *)
 Theorem search_where_agree_guarded ci o st n v :
   stored_num st = Some v -> stored_wf st = true -> lit_wf (LNum n) = true ->
-  cmp_guard o st (LNum n) = true -> where_guard o st n = true ->
+  cmp_guard o st (LNum n) = true ->
   where_cmp o st n = Some (impl_cmp ci o st (LNum n)).
 Proof.
-  intros Hv Hs Hl Hg Hw. rewrite (where_refines_spec_guarded ci o st n v Hv Hw).
+  intros Hv Hs Hl Hg. rewrite (where_refines_spec ci o st n v Hv).
   rewrite (cmp_refines_spec_guarded ci o st (LNum n) Hs Hl Hg). reflexivity.
 Qed.
 
